@@ -23,6 +23,9 @@ CHECKS = {
  "C10": ("fault_enumeration", "end-cause injection (read failure, write failure, Stop) at every trace position against a real server driven by a scripted client; handler gates order handler exit vs. Serve return; contexts sampled at Serve's return; goroutine-leak and registry check at a provably final state",
          "For every scenario (0..8 unary + 0..8 streaming handlers parked in receive / send / on their context) each end cause is placed at every position. Serve must have returned at the next final state; a streaming handler exiting after Serve's return, a live handler context at Serve's return, a registered stream or any goroutine with goat frames left after the handlers finished is a violation.",
          "Positions are exhaustive per scenario, schedules sampled; goroutine attribution by stack frames of the Go runtime snapshot.", "DESIGN.md 2/C10"),
+ "C14": ("exploration", "runtime invariant monitor at provably quiescent points over long mixed histories: client registry size, server stream registry size (accessors under the code's own locks) and goat-goroutine count vs. idle level",
+         "Long histories (quick ~10^4, thorough ~5x10^5 RPCs) of all four kinds and 11 outcome classes incl. cancel/deadline at varying points, server resets and opens failing in the transport write, up to 32 at a time on one connection; after every round the state is sampled at a stop-the-world final state and must equal the idle level.",
+         "Registry sizes come from verif-tagged accessors; goroutine attribution by stack frames; outcomes are sampled, not enumerated.", "DESIGN.md 2/C14"),
 }
 NOT_YET = "check not built yet in this round (runtime-monitoring design in DESIGN.md section 2); will be claimed once its monitor exists"
 
